@@ -242,7 +242,8 @@ def main(tier, seed, replay=None):
     ck.sample({'peaks_MiB': peaks})
     ck.assumptions += ['CPython refcounting finalises abandoned generators promptly (the census runs right after each call returns)',
                        'tracemalloc sees Python-level allocations only (zlib/sqlite internal buffers are outside)']
-    return ck.finish()
+    import tracecheck as _tc
+    return ck.finish(search=_tc.crash_search(ck, ck.pid))
 
 
 if __name__ == '__main__':
